@@ -1,4 +1,5 @@
 // Harnesses for src/unit_ball.rs
+//@@ needs: unit_circle.rs
 #[allow(unused_imports)]
 use std::{vec, vec::Vec};
 use super::*;
